@@ -244,9 +244,12 @@ def mode_match_switches(fn, adt, field):
     return out
 
 
-def assume_mode(fn, adt, field, mode, variants):
+def assume_mode(fn, adt, field, mode, variants, derived=None):
     """Edges that cannot be taken when <config>.field == mode: the other arms of every match on it and the
-    contradicting side of every `== Variant` / `!= Variant` test.  Returns (blocked edges, number of tests)."""
+    contradicting side of every `== Variant` / `!= Variant` test.  `derived` ({T: {mode: variants}}) extends this
+    to matches and comparisons on a *decision value* of enum type T that was computed from the mode elsewhere and
+    stored (`CopyMethod` chosen once per file from `Config.reflink`): under the assumed mode it can only be one
+    of the variants that computation yields.  Returns (blocked edges, number of tests)."""
     cfg = cfg_of(fn)
     blocked = []
     tests = 0
@@ -261,7 +264,128 @@ def assume_mode(fn, adt, field, mode, variants):
             tests += 1
             if (v == mode) != val:
                 blocked.append((u, tgt))
+    for T, by_mode in (derived or {}).items():
+        allowed = by_mode.get(mode)
+        if allowed is None:
+            continue
+        for sb, m in type_variant_switches(fn, T):
+            tests += 1
+            keep = set(tb for vn, tb in m.items() if vn in allowed)
+            for s_ in cfg.succ[sb]:
+                if s_ not in keep:
+                    blocked.append((sb, s_))
+        for (u, tgt, vn, val) in enum_eq_edges_ty(fn, T):
+            tests += 1
+            # `x == V` is impossible if V is not allowed; `x != V` is impossible if V is the only allowed variant
+            if val and vn not in allowed:
+                blocked.append((u, tgt))
+            if not val and allowed == {vn}:
+                blocked.append((u, tgt))
     return blocked, tests
+
+
+def enum_eq_edges_ty(fn, T):
+    """Bool switches fed by `a == <const variant of T>` (derived PartialEq against a promoted constant), whatever
+    place a is: [(u, v, variant, truth of 'a == variant' on that edge)]."""
+    cfg = cfg_of(fn)
+    du = defuse(fn)
+    out = []
+    proms = fn.raw.get("promoted", [])
+    for bi, b in enumerate(fn.blocks):
+        t = b["term"]
+        if cfg.cleanup[bi] or t["k"] != "switch" or t.get("op_ty") != "bool":
+            continue
+        flip = 0
+        found = None
+        work, seen = [op_local(t["op"])], set()
+        while work:
+            l = work.pop()
+            if l is None or l in seen:
+                continue
+            seen.add(l)
+            for site, whole in du.defs.get(l, []):
+                n = site.node
+                if site.is_term:
+                    if callee_orig(n) in ("core::cmp::PartialEq::eq", "core::cmp::PartialEq::ne") and \
+                            any(T in (ty_ or "") for ty_ in n.get("arg_tys", [])):
+                        if callee_orig(n).endswith("::ne"):
+                            flip ^= 1
+                        for a in n["args"]:
+                            for vn in _const_variants(fn, a, proms):
+                                found = vn
+                elif n["rv"]["k"] == "use":
+                    work.append(op_local(n["rv"]["op"]))
+                elif n["rv"]["k"] == "un" and n["rv"]["op"] == "Not":
+                    flip ^= 1
+                    work.append(op_local(n["rv"]["a"]))
+        if found is None:
+            continue
+        explicit = {int(v): tb for v, tb in t["targets"]}
+        true_t = t["otherwise"] if 0 in explicit else explicit.get(1)
+        false_t = explicit.get(0, t["otherwise"])
+        if flip:
+            true_t, false_t = false_t, true_t
+        out.append((bi, true_t, found, True))
+        out.append((bi, false_t, found, False))
+    return out
+
+
+def derived_decisions(fx, field, mode_adt, _memo={}):
+    """{T: {mode: set(variant names)}} for every field-less workspace enum T whose values are *chosen from*
+    Config.<field>: T's variants are only ever constructed in functions that branch on the mode, and which variants
+    can be constructed depends on it."""
+    k = (id(fx), field)
+    if k in _memo:
+        return _memo[k]
+    _memo[k] = {}          # (re-entrancy guard)
+    import views
+    modes = [v["name"] for v in fx.adts.get(mode_adt, {}).get("variants", [])]
+    cands = {}
+    for p_, a_ in fx.adts.items():
+        if a_.get("kind") == "enum" and p_.split("::")[0] == "libxcp" and p_ != mode_adt and len(a_.get("variants", [])) >= 2 \
+                and all(not v_.get("fields") for v_ in a_["variants"]):
+            cands[p_] = {}
+    out = {}
+    if cands:
+        readers = set(views._mode_fns(fx, field))
+        built_in = {}
+        for g in ro.fns_in_scope(fx, crates=("libxcp",)):
+            for b in g.blocks:
+                if b.get("cleanup"):
+                    continue
+                for s_ in b["stmts"]:
+                    rv = s_["rv"]
+                    if rv["k"] == "agg" and rv.get("ak") == "adt" and rv.get("adt") in cands:
+                        built_in.setdefault(rv["adt"], set()).add(g.root if g.is_closure else g.path)
+        for T, where in built_in.items():
+            if not where or not all(w in readers for w in where):
+                continue
+            by_mode = {m_: set() for m_ in modes}
+            ok = True
+            for w in sorted(where):
+                try:
+                    import inline as _inl
+                    gv = _inl.inlined(fx, fx.fns[w], 3, stop=()) or fx.fns[w]    # (views.view would ask for the stop set, which asks for this)
+                except Exception:
+                    gv = fx.fns[w]
+                cfgv = cfg_of(gv)
+                for m_ in modes:
+                    be, tests = assume_mode(gv, CONFIG, field, m_, modes)
+                    if not tests:
+                        ok = False
+                        break
+                    r = cfgv.reach([0], blocked_edges=be)
+                    for bi in r:
+                        for s_ in gv.blocks[bi]["stmts"]:
+                            rv = s_["rv"]
+                            if rv["k"] == "agg" and rv.get("ak") == "adt" and rv.get("adt") == T:
+                                by_mode[m_].add(rv["variant"])
+                if not ok:
+                    break
+            if ok and all(by_mode.values()) and len(set(frozenset(v_) for v_ in by_mode.values())) > 1:
+                out[T] = by_mode
+    _memo[k] = out
+    return out
 
 
 def c15(ctx):
@@ -285,7 +409,8 @@ def c15(ctx):
     # the mode function: branches on Config.reflink, answers with a bool, and a clone request is reachable from it
     # (the outermost such function if helpers share the work)
     cg = q.callgraph(fx)
-    cands = [p_ for p_ in views._mode_fns(fx, "reflink") if fx.fns[p_].crate == "libxcp" and views._returns_bool(fx.fns[p_])
+    derived = derived_decisions(fx, "reflink", REFLINK_ADT)
+    cands = [p_ for p_ in views._mode_fns_ext(fx, "reflink") if fx.fns[p_].crate == "libxcp" and views._returns_bool(fx.fns[p_])
              and any(c_ in cg.reach(p_) for c_ in cl)]
     outer = [p_ for p_ in cands if not any(p_ in cg.reach(o_) for o_ in cands if o_ != p_)]
     modefn = (outer or cands or [views.reflink_mode_fn(fx)])[0]
@@ -326,7 +451,7 @@ def c15(ctx):
     if not fe:
         obs.append(anchor_ob("R-TABLE", "mode function: no branch on the clone result"))
     for mode in ("Never", "Always", "Auto"):
-        be, tests = assume_mode(f, CONFIG, "reflink", mode, variants)
+        be, tests = assume_mode(f, CONFIG, "reflink", mode, variants, derived)
         if tests == 0:
             obs.append(anchor_ob("R-TABLE", "mode function tests Config.reflink"))
             continue
